@@ -1259,6 +1259,10 @@ def check_hier(ctx, spec, H, configs, lean_items, want_lean, want_m, precond=Tru
             lean_items.append({'line': lean_line(H, hdr, c, cpl, k, want_m, x0, b), 'H': H, 'spec': spec, 'c': c, 'cpl': cpl, 'k': k,
                                'x0': x0, 'b': b, 'x1': x1, 'xk': xk, 'pv': pv, 'trace': tr, 'ptrace': ptr, 'scale': max(sc, sck),
                                'A0d': A0d})
+            if getattr(H, 'e38', None) is not None and ((c, cpl) == configs[0] or rng.random() < 0.35):
+                # extension E38: the same cycle with the recorded relaxation calls executed by their kernel models
+                lean_items[-1]['e38'] = (f'c03x_run {c} {cpl} {k} {1 if want_m else 0} {H.e38} '
+                                         f'{enc_rats(_realify_v(x0, H.cplx))} {enc_rats(_realify_v(b, H.cplx))}')
             if (c, cpl) == configs[0] or rng.random() < 0.1:        # extension E17: the composed solve-path models
                 try:
                     lean_items[-1]['e17'] = e17_observe(ctx, H, hdr, c, cpl, x0, b, A0d, max(sc, sck))
@@ -1388,14 +1392,290 @@ def smoother_lean_items(H, spec, items):
                           'spec': spec, 'dims': H.dims})
 
 
+# ------------------------------------------------------------------------------------------------
+# extension E38: the extended cycle model (Model/ExtC03XCyc.lean, theorems Proofs/ExtC03XThm.lean).  A smoother is sent as
+# a RECORDED RELAXATION CALL -- the requested method and options plus the numerical by-products its setup computes (the
+# CSR / CSC / BSR copy of the level matrix the closure works on, spectral-radius-scaled omega / coefficients, inverse
+# diagonal blocks (exact rational inverses of the stored diagonal blocks), Schwarz subdomains and subdomain inverses) --
+# and Lean runs the validated kernel models of C09 inside the cycle (`c03x_run`), resp. on unit right-hand sides
+# (`c03x_q`: the Lean counterpart of the requested-smoother check for every linear family).
+# ------------------------------------------------------------------------------------------------
+
+def _sweep_ok(sw):
+    return sw in ('forward', 'backward', 'symmetric')
+
+
+def _csr_tok(M):
+    return f'{M.shape[0]}:{enc_ints(M.indptr)}:{enc_ints(M.indices)}:{enc_rats(M.data)}'
+
+
+def _same_as_level(M, Ad):
+    """the matrix copy the smoother works on is the level matrix, entry by entry (no rounding in the comparison: stored
+    duplicates, which toarray() would add in floating point, are excluded)"""
+    if M.shape != Ad.shape or np.iscomplexobj(M.data) or not np.all(np.isfinite(M.data)):
+        return False
+    C = M.copy()
+    C.sum_duplicates()
+    if C.nnz != M.nnz:
+        return False
+    return bool(np.array_equal(M.toarray(), Ad))
+
+
+def _diag_ok(M):
+    """exactly one stored, non-zero diagonal entry per row (what the Jacobi / Gauss-Seidel kernels divide by)"""
+    M = sp.csr_array(M)
+    for i in range(M.shape[0]):
+        cols = M.indices[M.indptr[i]:M.indptr[i + 1]]
+        vals = M.data[M.indptr[i]:M.indptr[i + 1]]
+        k = np.where(cols == i)[0]
+        if len(k) != 1 or vals[k[0]] == 0:
+            return False
+    return True
+
+
+def _frac_inverse(B):
+    """exact inverse of a small float matrix (Fractions, Gauss-Jordan); None when singular"""
+    from fractions import Fraction
+    m = B.shape[0]
+    a = [[Fraction(float(B[i, j])) for j in range(m)] + [Fraction(int(i == j)) for j in range(m)] for i in range(m)]
+    for c in range(m):
+        p = next((r for r in range(c, m) if a[r][c] != 0), None)
+        if p is None:
+            return None
+        a[c], a[p] = a[p], a[c]
+        piv = a[c][c]
+        a[c] = [v / piv for v in a[c]]
+        for r in range(m):
+            if r != c and a[r][c] != 0:
+                f = a[r][c]
+                a[r] = [vr - f * vc for vr, vc in zip(a[r], a[c])]
+    return [row[m:] for row in a]
+
+
+def _bsr_tok(A):
+    """BSR arrays of a square-block matrix and the exact inverses of its diagonal blocks; None when not applicable"""
+    bs = A.blocksize[0]
+    if A.blocksize[1] != bs or A.shape[0] % bs or A.shape[0] != A.shape[1]:
+        return None
+    nb = A.shape[0] // bs
+    from fractions import Fraction
+    dinv = []
+    for i in range(nb):
+        D = np.zeros((bs, bs))
+        for jj in range(A.indptr[i], A.indptr[i + 1]):
+            if A.indices[jj] == i:
+                D = D + A.data[jj]
+        inv = _frac_inverse(D)
+        if inv is None:
+            return None
+        dinv += [v for row in inv for v in row]
+    enc_f = lambda f: str(f.numerator) if f.denominator == 1 else f'{f.numerator}/{f.denominator}'
+    return (f'{nb}:{bs}:{enc_ints(A.indptr)}:{enc_ints(A.indices)}:{enc_rats(np.ravel(A.data))}:' + ','.join(enc_f(f) for f in dinv),
+            np.array([float(f) for f in dinv]).reshape(nb, bs, bs))
+
+
+def e38_token(level, Ad, name, kw):
+    """the recorded relaxation call of the requested smoother `name`/`kw` on this level as a driver token, or (None, why)"""
+    from pyamg.relaxation import relaxation as R
+    A = level.A
+    if np.iscomplexobj(Ad) or np.iscomplexobj(A.data):
+        return None, 'complex'
+    it = int(kw.get('iterations', 1))
+    sw = kw.get('sweep', 'forward')
+    if not _sweep_ok(sw):
+        return None, 'sweep'
+    csr_level = A.format == 'csr'
+
+    def point():                # the Gauss-Seidel / SOR / Jacobi kernels divide by THE stored diagonal entry of a CSR row
+        if not csr_level or not _same_as_level(A, Ad):
+            return 'not-csr'
+        return None if _diag_ok(A) else 'no-unique-nonzero-diagonal'
+
+    if name in ('gauss_seidel', 'block_gauss_seidel') and (csr_level or name == 'gauss_seidel'):
+        why = point()
+        return (f'gs:1:{_csr_tok(A)}:{it}:{sw}', None) if why is None else (None, why)
+    if name == 'sor':
+        why = point()
+        return (f'gs:{enc_rat(kw.get("omega", 0.5))}:{_csr_tok(A)}:{it}:{sw}', None) if why is None else (None, why)
+    if name == 'jacobi' or (name == 'block_jacobi' and csr_level):
+        om = kw.get('omega', 1.0)
+        if kw.get('withrho', True):
+            if not hasattr(A, 'rho_D_inv'):
+                return None, 'no-rho'
+            om = om / A.rho_D_inv
+        why = point()
+        return (f'jac:{enc_rat(om)}:{_csr_tok(A)}:{it}', None) if why is None else (None, why)
+    if name in ('richardson', 'chebyshev'):
+        if not hasattr(A, 'rho'):
+            return None, 'no-rho'
+        if name == 'richardson':
+            coef = [kw.get('omega', 1.0) / A.rho]
+        else:
+            from pyamg.relaxation.chebyshev import chebyshev_polynomial_coefficients
+            lo, hi = kw.get('lower_bound', 1.0 / 30.0), kw.get('upper_bound', 1.1)
+            coef = list(-chebyshev_polynomial_coefficients(A.rho * lo, A.rho * hi, kw.get('degree', 3))[:-1])
+        M = sp.csr_array(A)
+        if not coef or not _same_as_level(M, Ad):
+            return None, 'matrix-copy'
+        return f'poly:{_csr_tok(M)}:{enc_rats(coef)}:{it}', None
+    if name in ('block_jacobi', 'block_gauss_seidel') and A.format == 'bsr':
+        if not _same_as_level(A, Ad):
+            return None, 'matrix-copy'
+        bt = _bsr_tok(A)
+        if bt is None:
+            return None, 'singular-diagonal-block'
+        tok, dinv = bt
+        from pyamg.util.utils import get_block_diag
+        rec = get_block_diag(A, blocksize=A.blocksize[0], inv_flag=True)
+        if rec.shape != dinv.shape or np.abs(rec - dinv).max(initial=0.0) > 1e-9 * (1 + np.abs(dinv).max(initial=0.0)):
+            return None, 'block-inverse-ill-conditioned'
+        if name == 'block_gauss_seidel':
+            return f'bgs:{tok}:{it}:{sw}', None
+        om = kw.get('omega', 1.0)
+        if kw.get('withrho', True):
+            if not hasattr(A, 'rho_block_D_inv'):
+                return None, 'no-rho'
+            om = om / A.rho_block_D_inv
+        return f'bjac:{enc_rat(om)}:{tok}:{it}', None
+    if name in ('gauss_seidel_ne', 'jacobi_ne'):
+        M = getattr(level, 'Acsr', None)
+        if M is None or M.format != 'csr' or not _same_as_level(M, Ad):
+            return None, 'matrix-copy'
+        om = kw.get('omega', 1.0)
+        if name == 'gauss_seidel_ne':
+            return f'gsne:{enc_rat(om)}:{_csr_tok(M)}:{it}:{sw}', None
+        if kw.get('withrho', True):
+            if not hasattr(M, 'rho_D_inv'):
+                return None, 'no-rho'
+            om = om / M.rho_D_inv ** 2
+        return f'jacne:{enc_rat(om)}:{_csr_tok(M)}:{it}', None
+    if name == 'gauss_seidel_nr':
+        M = getattr(level, 'Acsc', None)
+        if M is None or M.format != 'csc' or not _same_as_level(M, Ad):
+            return None, 'matrix-copy'
+        return f'gsnr:{enc_rat(kw.get("omega", 1.0))}:{_csr_tok(M)}:{it}:{sw}', None
+    if name in ('cf_jacobi', 'fc_jacobi') or (name in ('cf_block_jacobi', 'fc_block_jacobi') and csr_level):
+        if not hasattr(level, 'splitting'):
+            return None, 'no-splitting'
+        fi, ci = int(kw.get('f_iterations', 1)), int(kw.get('c_iterations', 1))
+        if name.endswith('block_jacobi') and (fi != 1 or ci != 1):
+            return None, 'known-finding-path'          # cf-block-jacobi-csr-drops-fc-iterations: judged by the direct call
+        om = kw.get('omega', 1.0)
+        if kw.get('withrho', False):
+            if not hasattr(A, 'rho_D_inv'):
+                return None, 'no-rho'
+            om = om / A.rho_D_inv
+        why = point()
+        if why is not None:
+            return None, why
+        Fp = np.where(np.logical_not(level.splitting))[0]
+        Cp = np.where(level.splitting)[0]
+        return (f'cfjac:{1 if name.startswith("cf") else 0}:{enc_rat(om)}:{_csr_tok(A)}:{enc_ints(Cp)}:{enc_ints(Fp)}:{it}:{fi}:{ci}', None)
+    if name in ('schwarz', 'strength_based_schwarz'):
+        M0 = getattr(level, 'Acsr', None)
+        if M0 is None or M0.format != 'csr' or not _same_as_level(M0, Ad):
+            return None, 'matrix-copy'
+        M = M0.copy()                        # a fresh object: no cached parameters
+        M.sort_indices()
+        if name == 'schwarz' or not hasattr(level, 'C'):
+            sub, subp = None, None
+        else:
+            Cm = level.C.tocsr().copy()
+            Cm.sort_indices()
+            sub, subp = Cm.indices.copy(), Cm.indptr.copy()
+        sub, subp, tx, tp = R.schwarz_parameters(M, sub, subp, None, None)
+        if not np.all(np.isfinite(tx)) or np.abs(tx).max(initial=0.0) > 1e8:
+            return None, 'subdomain-inverse-size'
+        return f'schwarz:{_csr_tok(M)}:{enc_rats(tx)}:{enc_ints(tp)}:{enc_ints(sub)}:{enc_ints(subp)}:{it}:{sw}', None
+    return None, 'no-model'
+
+
+def e38_levels(ctx, H, spec):
+    """per level the tokens of the pre / post smoother for the extended model (probed matrix where no recorded call applies);
+    -> (list of (pre token, post token), number of recorded calls, list of (level, side, name, kw, token))"""
+    toks, rec, nrec = [], [], 0
+    for i, l in enumerate(H.ml.levels[:-1]):
+        L = H.levels[i]
+        pair = []
+        for side in ('pre', 'post'):
+            name, kw = requested(spec, side, i)
+            tok = None
+            if name is not None and not H.cplx:
+                try:
+                    tok, why = e38_token(l, L['A'], name, kw)
+                except Exception as e:
+                    tok, why = None, 'raised:' + type(e).__name__
+                if tok is None:
+                    ctx.feat(f'e38:probed-matrix:{name}:{why}')
+            if tok is None:
+                tok = 'mat:' + _encm(_realify_m(L['Q' + side], H.cplx))
+            else:
+                nrec += 1
+                ctx.feat('e38:recorded:' + tok.split(':', 1)[0])
+                rec.append((i, side, name, kw, tok))
+            pair.append(tok)
+        toks.append(tuple(pair))
+    return toks, nrec, rec
+
+
+def e38_header(H, toks):
+    parts = []
+    for L, (t1, t2) in zip(H.levels, toks):
+        parts += [_encm(_realify_m(L[k], H.cplx)) for k in ('A', 'P', 'R')] + [t1, t2]
+    parts.append(_encm(_realify_m(H.S, H.cplx)))
+    return f'{H.nlev - 1} ' + ' '.join(parts)
+
+
+def e38_q_items(H, spec, rec, items):
+    """the requested-smoother check in Lean for every linear family: Q of the recorded call (kernel model applied to the unit
+    right-hand sides from a zero guess) against the Q probed from the installed closure"""
+    for (i, side, name, kw, tok) in rec:
+        items.append({'lines': [f'c03x_q {_encm(H.levels[i]["A"])} {tok}'], 'Q': H.levels[i]['Q' + side], 'level': i, 'side': side,
+                      'name': name, 'kw': kw, 'spec': spec, 'dims': H.dims, 'e38': True})
+
+
+def judge_e38(ctx, items, outs):
+    """the extended cycle model (recorded relaxation calls executed inside the cycle) against the real solve"""
+    for it, o in zip(items, outs):
+        H, spec, c, cpl, k = it['H'], it['spec'], it['c'], it['cpl'], it['k']
+        desc = _case(spec, dims=H.dims, cycle=c, cpl=cpl, k=k, x0=_lst(it['x0']), b=_lst(it['b']))
+        ctx.feat('lean:e38-run')
+        parts = o.split('#') if o != 'bad-op' else []
+        if len(parts) != 4:
+            ctx.corr('c03x_run', desc, o[:200], 'n/a', 'the driver rejected the request (a recorded call that is not a call for its '
+                     'level matrix, or a malformed line)')
+            continue
+        if parts[3] != '11':
+            ctx.corr('c03x_run model self-check (AllOK; one cycle = cycM with the matrices Q of the recorded calls)', desc, parts[3], '11')
+        fv = lambda s: _unreal_v([float(q) for q in dec_list(s, dec_rat)], H.cplx)
+        sc = it['scale']
+
+        def cmp(what, model, impl, refv):
+            if _close(impl, model, sc):
+                return
+            ctx.corr(what, desc, np.ravel(model)[:6].tolist(), np.ravel(impl)[:6].tolist())
+            if not _close(impl, refv, sc):
+                ctx.violation(f'{what}: the real code differs from the textbook recursion (extended Lean model and NumPy recursion agree '
+                              f'with each other): max difference {np.abs(np.ravel(impl) - np.ravel(refv)).max():.3g}', dict(desc, kind='cycle'))
+        cmp(f'extended model: one {c}-cycle cpl={cpl}', fv(parts[0]), it['x1'], ref(H, it['x0'], it['b'], c, cpl)[0])
+        cmp(f'extended model: solve maxiter={k} {c} cpl={cpl}', fv(parts[1]), it['xk'], ref(H, it['x0'], it['b'], c, cpl, k)[0])
+        cmp(f'extended model: aspreconditioner({c}) @ b', fv(parts[2]), it['pv'], ref(H, np.zeros_like(it['b']), it['b'], c, 1)[0])
+
+
 def judge_smoothers(ctx, sm_items, outs):
     pos = 0
     for it in sm_items:
         rep = outs[pos:pos + len(it['lines'])]
         pos += len(it['lines'])
-        ctx.feat('lean:smoother-Q')
+        ctx.feat('lean:smoother-Q' + (':e38:' + it['lines'][0].split(' ')[2].split(':', 1)[0] if it.get('e38') else ''))
         try:
-            Qm = np.column_stack([[float(q) for q in dec_list(o, dec_rat)] for o in rep])
+            if it.get('e38'):           # `ok#Q` of c03x_q: the recorded call must be a call for the level matrix
+                okflag, qs = rep[0].split('#')
+                if okflag != '1':
+                    raise ValueError('not a call for the level matrix')
+                Qm = np.array([[float(q) for q in dec_list(r, dec_rat)] for r in qs.split(';')])
+            else:
+                Qm = np.column_stack([[float(q) for q in dec_list(o, dec_rat)] for o in rep])
         except Exception:
             ctx.corr('smoother kernel model', _case(it['spec'], level=it['level'], side=it['side']), rep[0][:100], 'n/a', 'bad reply')
             continue
@@ -1497,8 +1777,14 @@ def process_spec(ctx, spec, lean_items, sm_items, lean_dim, m_dim, nconf):
     want_m = realdim <= m_dim
     if H.inconsistent_coarse:
         ctx.feat('coarse-level-smoother-not-consistent(numpy-only)')
+    H.e38 = None
     if want_lean:
         smoother_lean_items(H, spec, sm_items)
+        if not H.cplx and H.nlev >= 2:
+            toks, nrec, rec = e38_levels(ctx, H, spec)
+            if nrec:
+                H.e38 = e38_header(H, toks)
+                e38_q_items(H, spec, rec, sm_items)
     check_hier(ctx, spec, H, confs, lean_items, want_lean, want_m)
     return True
 
@@ -1730,11 +2016,15 @@ def run_specs(ctx, specs, lean_dim, m_dim, nconf=4, batch=None):
             if process_spec(ctx, spec, lean_items, sm_items, lean_dim, m_dim, nconf):
                 used += 1
         e17_items = [it for it in lean_items if 'e17' in it]
-        heavy = [it['line'] for it in lean_items] + [ln for it in e17_items for ln in it['e17']['lines']]
+        e38_items = [it for it in lean_items if 'e38' in it]
+        heavy = ([it['line'] for it in lean_items] + [ln for it in e17_items for ln in it['e17']['lines']]
+                 + [it['e38'] for it in e38_items])
         light = [ln for it in sm_items for ln in it['lines']]
         oh, ol = _lean_balanced(ctx, heavy, light)
         judge_lean(ctx, lean_items, oh[:len(lean_items)])
-        judge_e17(ctx, e17_items, oh[len(lean_items):])
+        n17 = sum(len(it['e17']['lines']) for it in e17_items)
+        judge_e17(ctx, e17_items, oh[len(lean_items):len(lean_items) + n17])
+        judge_e38(ctx, e38_items, oh[len(lean_items) + n17:])
         judge_smoothers(ctx, sm_items, ol)
         if ctx.time_left() < (25 if ctx.quick else 150):
             break
